@@ -370,8 +370,15 @@ def concurrent_phase(bindir, dic, wd, tag, seconds=1.5, clients=4, registrations
     lock = threading.Lock()
 
     def pairs(i):
+        k_ = 0
         while not stop.is_set():
-            res = srv.conv("くるまで", timeout=10.0)
+            # every RPC that converts takes part: GetCandidates in the four contexts and GetProperCandidates, short and long inputs
+            k_ += 1
+            inp = "くるまで" if (i + k_) % 3 else "くるまではしらなかった" * 6
+            if (i + k_) % 2:
+                res = srv.conv(inp, timeout=10.0, method="GetProperCandidates")
+            else:
+                res = srv.conv(inp, CTX_KIND.get(["normal", "foreign", "numeral"][(i + k_) % 3]), timeout=10.0)
             if res[0] != "ok":
                 problems.append(("unanswered", "conversion: %s" % res[0]))
                 return
